@@ -90,6 +90,8 @@ STATIC = [
     {"mod": "s22_shared_spelling_rev", "flags": ["ErrorCommands"], "decls": [
         d("[SENSe]:FREQuency:STARt?", "fstart"), d("FREQuency:CENTer?", "fcent"), d("FREQ:SPAN?", "fspan"), d("STATe:RECall", "strc"),
         d("STATus:OPERation?", "stop"), d("OUTP:LEVel", "outl", ["f32"]), d("OUTPut:STATe", "outs", ["bool"]), d("SYST:ERR:ALL?", "eall"), d("SYSTem:ERR_LED", "eled", ["bool"])]},
+    # one optional mnemonic twice in a header: the same spelling of the same handler arises more than once
+    {"mod": "s23_self_overlap", "flags": [], "decls": [d("[ROUTe]:[ROUTe]:CLOSe", "rclose", ["u8"]), d("[SENSe]:[VOLTage]:[SENSe]:RANGe?", "srange"), d("[A]:[A]:X", "aax")]},
     # the options of the attribute in the other order: what is requested must not depend on the order it is requested in
     {"mod": "s18_flag_order", "flags": ["ErrorCommands", "StandardCommands"], "decls": [d("USER:CMD", "u"), d("OTHer?", "o")]},
 ]
@@ -149,7 +151,9 @@ def language(decls):
     coll = []
     for dcl in decls:
         paths, kind = oracle_paths(dcl["cmd"])
-        for p in paths:
+        # the spellings of one declaration are a set: a spelling that arises twice (an optional mnemonic repeated in the
+        # header) is one spelling of one handler, not a collision
+        for p in sorted(set(paths)):
             key = (p, kind)
             if key in lang:
                 coll.append((key, lang[key], dcl["fn"]))
